@@ -9,7 +9,7 @@ Oracle: the stated inequalities on the implementation, approximation value/gradi
     subproblem, interiority of every line-search trial point, distance to the analytic optimum and constraint
     satisfaction after N iterations (convergence is validated, not proved).
 """
-import os, io, json, glob, contextlib
+import os, io, json, glob, contextlib, signal, time
 from fractions import Fraction
 import numpy as np
 import vlib
@@ -64,7 +64,58 @@ def rnd(rng, lo, hi, digits=3):
     return round(rng.uniform(lo, hi), digits)
 
 
-def gen_problem(rng, tier_big=False, shapes=None):
+# ---- the Python / numpy kinds in which states, bounds and move limits are handed over
+#   a state:  scalar signal -> Python float / int or a numpy scalar;  array signal -> a 1-D array of that dtype
+#   a bound:  {'container': 'scalar' | 'list' | 'tuple' | 'array', 'num': <kind of the numbers>}
+INT_KINDS = ('pyint', 'i64', 'i32')
+SCALAR_KINDS = ('pyfloat', 'pyint', 'f64', 'f32', 'i64', 'i32')
+ARRAY_KINDS = ('f64', 'f32', 'i64', 'i32')
+KIND_TAG = dict(pyfloat='F64', f64='F64', pyint='I64', i64='I64', f32='F32', i32='I32')     # dtype after np.asarray
+
+
+def np_type(kind):
+    return dict(f64=np.float64, f32=np.float32, i64=np.int64, i32=np.int32)[kind]
+
+
+def legacy_kinds(shapes, spell):
+    """how the check spelled everything before kinds were explored: Python floats, float64 arrays, lists of floats"""
+    return dict(states=['pyfloat' if s == 0 else 'f64' for s in shapes],
+                **{k: dict(container={'scalar': 'scalar', 'signal': 'list', 'variable': 'array'}[spell[k]],
+                           num='f64' if spell[k] == 'variable' else 'pyfloat') for k in ('xmin', 'xmax', 'move')})
+
+
+def random_kinds(rng, shapes, spell, profile):
+    """profile: 'legacy' | 'mixed' (every operand draws its own kind) | 'allint' / 'allf32' / 'alli32' (every state of that family)"""
+    if profile == 'legacy':
+        return legacy_kinds(shapes, spell)
+    fam = dict(allint=(('pyint', 'i64'), ('i64',)), alli32=(('i32',), ('i32',)), allf32=(('f32',), ('f32',)),
+               mixed=(SCALAR_KINDS, ARRAY_KINDS))[profile]
+    out = dict(states=[rng.choice(fam[0]) if s == 0 else rng.choice(fam[1]) for s in shapes])
+    for k in ('xmin', 'xmax', 'move'):
+        if spell[k] == 'scalar':
+            out[k] = dict(container='scalar', num=rng.choice(('pyfloat', 'pyfloat', 'f64', 'f32', 'pyint', 'i64', 'i32')))
+        else:
+            cont = rng.choice(('list', 'list', 'tuple', 'array', 'array'))
+            out[k] = dict(container=cont, num=rng.choice(('f64', 'f64', 'f32', 'i64', 'i32')) if cont == 'array'
+                          else rng.choice(('pyfloat', 'pyfloat', 'pyint')))
+    return out
+
+
+def quantise(kind, v, how):
+    """a value the kind can hold exactly: integers for the integer kinds, multiples of 1/64 for float32"""
+    if kind in INT_KINDS:
+        return float({'floor': np.floor, 'ceil': np.ceil, 'round': np.round}[how](v))
+    if kind == 'f32':
+        return float(np.round(v * 64) / 64)
+    return float(v)
+
+
+def both_sequences_per_variable(spell, kinds, n, nsig):
+    """xmin and xmax both handed over as Python lists / tuples with one entry per variable (the known finding below)"""
+    return n != nsig and all(spell[k] == 'variable' and kinds[k]['container'] in ('list', 'tuple') for k in ('xmin', 'xmax'))
+
+
+def gen_problem(rng, tier_big=False, shapes=None, profile='legacy', spell=None, kinds=None):
     """random convex problem with known optimum (KKT construction); returns a JSON-able dict"""
     nsig = rng.choice((1, 1, 2, 2, 3))
     if shapes is None:
@@ -76,25 +127,36 @@ def gen_problem(rng, tier_big=False, shapes=None):
     n = sum(lens)
     cum = np.concatenate([[0], np.cumsum(lens)])
     positive = rng.random() < 0.6
-    spell = {k: rng.choice(('scalar', 'signal', 'variable')) for k in ('xmin', 'xmax', 'move')}
+    spell = dict(spell) if spell else {k: rng.choice(('scalar', 'signal', 'variable')) for k in ('xmin', 'xmax', 'move')}
+    if kinds is None:
+        kinds = random_kinds(rng, shapes, spell, profile)
+        if both_sequences_per_variable(spell, kinds, n, nsig):
+            kinds['xmax'] = dict(container='array', num='f64')
+    int_state = any(k in INT_KINDS for k in kinds['states'])
     lo0 = rnd(rng, 0.2, 1.0) if positive else rnd(rng, -2.0, 1.0)
 
-    def bound(kind, base, width):
+    def bound(nm, base):
+        kind = spell[nm]
         if kind == 'scalar':
             return base(), None
         if kind == 'signal':
             vals = [base() for _ in range(nsig)]
-            return vals, np.concatenate([np.full(l, v) for l, v in zip(lens, vals)])
+            return vals, np.concatenate([np.full(l, v) for l, v in zip(lens, vals)] + [np.zeros(0)])
         vals = [base() for _ in range(n)]
         return vals, np.array(vals)
-    xmin_spec, xmin = bound(spell['xmin'], lambda: round(lo0 + rnd(rng, 0.0, 0.5), 3), None)
+
+    def lo_value():
+        v = quantise(kinds['xmin']['num'], round(lo0 + rnd(rng, 0.0, 0.5), 3), 'floor')
+        return max(v, 1.0) if positive and kinds['xmin']['num'] in INT_KINDS else max(v, 1 / 64) if positive else v
+    xmin_spec, xmin = bound('xmin', lo_value)
     if xmin is None:
         xmin = np.full(n, xmin_spec)
-    top = float(xmin.max())
-    xmax_spec, xmax = bound(spell['xmax'], lambda: round(top + rnd(rng, 0.5, 3.0), 3), None)
+    top = float(xmin.max()) if n else 0.0
+    # integer-typed states need an integer inside every [xmin, xmax]
+    xmax_spec, xmax = bound('xmax', lambda: quantise(kinds['xmax']['num'], round(top + rnd(rng, 1.05 if int_state else 0.5, 3.0), 3), 'ceil'))
     if xmax is None:
         xmax = np.full(n, xmax_spec)
-    move_spec, move = bound(spell['move'], lambda: rnd(rng, 0.08, 0.6), None)
+    move_spec, move = bound('move', lambda: max(quantise(kinds['move']['num'], rnd(rng, 0.08, 0.6), 'ceil'), 1 / 64))
     if move is None:
         move = np.full(n, move_spec)
     dx = xmax - xmin
@@ -156,6 +218,18 @@ def gen_problem(rng, tier_big=False, shapes=None):
     # starting point
     x0 = np.array([float(xmin[j]) if (u := rng.random()) < 0.12 else float(xmax[j]) if u < 0.24 else
                    float(xmin[j] + dx[j] * rnd(rng, 0.05, 0.95)) for j in range(n)])
+    # ... held exactly by the kind of its signal (an integer / a float32 number inside the bounds)
+    kinds = dict(kinds, states=list(kinds['states']))
+    for i, k in enumerate(kinds['states']):
+        a, b = int(cum[i]), int(cum[i + 1])
+        if k in INT_KINDS and any(np.ceil(xmin[j]) > np.floor(xmax[j]) for j in range(a, b)):
+            k = kinds['states'][i] = 'pyfloat' if shapes[i] == 0 else 'f64'          # no integer inside: keep floats
+        for j in range(a, b):
+            if k in INT_KINDS:
+                x0[j] = min(max(np.round(x0[j]), np.ceil(xmin[j])), np.floor(xmax[j])) + 0.0      # (+ 0.0: no negative zero)
+            elif k == 'f32':
+                q = quantise(k, x0[j], 'round')
+                x0[j] = q + 1 / 64 if q < xmin[j] else q - 1 / 64 if q > xmax[j] else q
     ver = rng.choice(('Svanberg2007', 'Svanberg2007', 'Svanberg1987', '1987', 'MMA-2007x'))
     kw = dict(mmaversion=ver)
     if rng.random() < 0.6:
@@ -163,12 +237,15 @@ def gen_problem(rng, tier_big=False, shapes=None):
                   asybound=rnd(rng, 2.0, 20.0), albefa=rnd(rng, 0.05, 0.4))
     if rng.random() < 0.3:
         kw['epsimin'] = rng.choice((1e-7, 1e-8, 3e-9, 1e-9))
-    return dict(shapes=shapes, xmin=xmin_spec, xmax=xmax_spec, move=move_spec, spell=spell, x0=x0.tolist(),
+    return dict(shapes=shapes, xmin=xmin_spec, xmax=xmax_spec, move=move_spec, spell=spell, kinds=kinds, x0=x0.tolist(),
                 xstar=xs.tolist(), f=[f0.tojson()] + [g.tojson() for g in cons], kw=kw, maxit=rng.choice((40, 60)),
                 verbosity=rng.choice((0, 0, 0, 2, 3, 4)), none_sens=rng.random() < 0.5)
 
 
 # ======================================================================================== running the implementation
+RUN_TIMEOUT = [90.0]        # seconds per minimize_mma run (a normal run of 40-60 iterations takes a few seconds at most)
+
+
 class Rec:
     pass
 
@@ -182,10 +259,10 @@ def run_problem(pym, prob, maxit=None):
     n = int(cum[-1])
     fns = [Fn(**f) for f in prob['f']]
     x0 = np.array(prob['x0'], dtype=float)
+    kinds = prob.get('kinds') or legacy_kinds(shapes, prob['spell'])
     variables = []
     for i, s in enumerate(shapes):
-        st = float(x0[cum[i]]) if s == 0 else x0[cum[i]:cum[i + 1]].copy()
-        variables.append(pym.Signal(f'x{i}', state=st))
+        variables.append(pym.Signal(f'x{i}', state=state_value(x0[cum[i]:cum[i + 1]], s == 0, kinds['states'][i])))
     if prob.get('_none_state'):
         variables[-1].state = None
     none_sens = prob.get('none_sens', False)
@@ -219,13 +296,14 @@ def run_problem(pym, prob, maxit=None):
 
     def cb():
         rec.callbacks.append([(np.ndim(v.state) == 0, np.array(v.state, dtype=float).ravel().copy(),
-                               type(v.state).__name__) for v in variables])
+                               type(v.state).__name__, np.asarray(v.state).dtype) for v in variables])
 
     orig_mmasub, orig_subsolv, orig_residual = mma.MMA.mmasub, mma.subsolv, mma.residual
 
     def w_mmasub(self, xval, g, dg):
         c = Rec()
-        c.xval, c.g, c.dg = xval.copy(), np.array(g, dtype=float).copy(), np.array(dg, dtype=float).copy()
+        c.xval, c.g, c.dg = np.array(xval, dtype=float), np.array(g, dtype=float).copy(), np.array(dg, dtype=float).copy()
+        c.xval_dt = np.asarray(xval).dtype
         c.xold1 = None if self.xold1 is None else self.xold1.copy()
         c.xold2 = None if self.xold2 is None else self.xold2.copy()
         c.offset0 = None if self.offset is None else np.array(self.offset, dtype=float).copy()
@@ -235,6 +313,8 @@ def run_problem(pym, prob, maxit=None):
             f.xmin = np.array(np.broadcast_to(self.xmin, (self.n,)), dtype=float).copy()
             f.xmax = np.array(np.broadcast_to(self.xmax, (self.n,)), dtype=float).copy()
             f.move = np.array(np.broadcast_to(self.move, (self.n,)), dtype=float).copy()
+            # the dtypes in which MMA.response left them (a per-variable sequence is kept as it was given)
+            f.xmin_dt, f.xmax_dt, f.move_dt = (np.asarray(v).dtype for v in (self.xmin, self.xmax, self.move))
             f.par = dict(asyinit=self.asyinit, asyincr=self.asyincr, asydecr=self.asydecr, asybound=self.asybound,
                          albefa=self.albefa, epsimin=self.epsimin, version=self.mmaversion, n=self.n, m=self.m,
                          a0=self.a0, a=np.array(self.a, dtype=float).copy(), c=np.array(self.c, dtype=float).copy(),
@@ -291,31 +371,70 @@ def run_problem(pym, prob, maxit=None):
         return ret
 
     kw = dict(prob['kw'])
-    kw.update(xmin=spec_value(prob['xmin'], prob['spell']['xmin']), xmax=spec_value(prob['xmax'], prob['spell']['xmax']),
-              move=spec_value(prob['move'], prob['spell']['move']), maxit=maxit or prob['maxit'], tolx=0.0, tolf=0.0,
+    kw.update(xmin=spec_value(prob['xmin'], prob['spell']['xmin'], kinds['xmin']),
+              xmax=spec_value(prob['xmax'], prob['spell']['xmax'], kinds['xmax']),
+              move=spec_value(prob['move'], prob['spell']['move'], kinds['move']), maxit=maxit or prob['maxit'], tolx=0.0, tolf=0.0,
               verbosity=prob.get('verbosity', 0), fn_callback=cb)
     rec.error = None
     mma.MMA.mmasub, mma.subsolv, mma.residual = w_mmasub, w_subsolv, w_residual
     out = io.StringIO()
+    def on_alarm(*a):
+        raise TimeoutError(f'minimize_mma did not return within {RUN_TIMEOUT[0]} s')
+    old_handler = signal.signal(signal.SIGALRM, on_alarm)
+    signal.setitimer(signal.ITIMER_REAL, RUN_TIMEOUT[0])
+    t_run = time.time()
     try:
         with contextlib.redirect_stdout(out), np.errstate(all='ignore'):
             pym.minimize_mma(net, variables, responses, **kw)
+    except TimeoutError as e:
+        rec.error = e
+        RUN_TIMEOUT[0] = min(RUN_TIMEOUT[0], 15.0)        # a tree in which runs hang: do not wait that long again
     except Exception as e:          # noqa
         rec.error = e
     finally:
+        signal.setitimer(signal.ITIMER_REAL, 0)
+        signal.signal(signal.SIGALRM, old_handler)
         mma.MMA.mmasub, mma.subsolv, mma.residual = orig_mmasub, orig_subsolv, orig_residual
+    rec.seconds = time.time() - t_run
     rec.variables, rec.responses, rec.fns, rec.cum, rec.n = variables, responses, fns, cum, n
     rec.final = np.concatenate([np.atleast_1d(np.asarray(v.state, dtype=float)).ravel() for v in variables])
     return rec
 
 
-def spec_value(spec, spell):
-    """JSON spec -> the python object handed to minimize_mma: scalar -> float, per signal -> list, per variable -> ndarray"""
+def number(v, kind):
+    """the value v (exactly representable in that kind) as a Python float / int or a numpy scalar"""
+    if kind == 'pyfloat':
+        return float(v)
+    if kind == 'pyint':
+        assert float(v) == int(v)
+        return int(v)
+    r = np_type(kind)(v)
+    assert float(r) == float(v), (v, kind)
+    return r
+
+
+def state_value(vals, is_scalar, kind):
+    """initial state of a variable signal in the requested kind"""
+    if is_scalar:
+        return number(vals[0], kind)
+    a = np.array(vals, dtype=np_type(kind))
+    assert np.array_equal(a.astype(float), np.asarray(vals, dtype=float)), (vals, kind)
+    return a
+
+
+def spec_value(spec, spell, kind=None):
+    """JSON spec -> the python object handed to minimize_mma: a scalar, a list / tuple of Python numbers or an ndarray"""
+    if kind is None:
+        kind = dict(container={'scalar': 'scalar', 'signal': 'list', 'variable': 'array'}[spell],
+                    num='f64' if spell == 'variable' else 'pyfloat')
     if spell == 'scalar':
-        return float(spec)
-    if spell == 'signal':
-        return [float(v) for v in spec]
-    return np.array(spec, dtype=float)
+        return number(spec, kind['num'])
+    if kind['container'] == 'array':
+        a = np.array(spec, dtype=np_type(kind['num']))
+        assert np.array_equal(a.astype(float), np.asarray(spec, dtype=float)), (spec, kind)
+        return a
+    vals = [number(v, kind['num']) for v in spec]
+    return tuple(vals) if kind['container'] == 'tuple' else vals
 
 
 
@@ -338,6 +457,20 @@ K_STALL = ('subsolv', 'returned point satisfies max|residual| <= 0.9*epsi_last',
 K_STALL_TEXT = ('subsolv gives up after maxittt = 400 Newton steps per epsi level and returns a point whose KKT residual exceeds '
                 'the requested accuracy (only a message is printed); frequent when no constraint is active at the subproblem '
                 'optimum; inherited from the reference algorithm (undamped Newton + residual-norm backtracking), no small patch')
+
+
+K_SEQ = ('minimize_mma', 'runs without raising on a valid convex problem',
+         'xmin and xmax both given per variable as Python lists / tuples (more variables than signals)')
+K_SEQ_TEXT = ('per-variable bounds are documented ("can be a vector") and a per-SIGNAL Python list is expanded into an array, but a Python '
+              'list / tuple with one entry per VARIABLE is kept as it is: with both xmin and xmax given that way MMA.mmasub evaluates '
+              'self.xmax - self.xmin on two lists -> TypeError; small patch: self.xmin = np.asarray(self.xmin, dtype=float) (same for xmax, move) '
+              'after the expansion in MMA.response')
+
+
+def kinds_class(kinds):
+    fam = lambda k: 'int' if k in INT_KINDS else 'float32' if k == 'f32' else 'float'
+    st = sorted({fam(k) for k in kinds['states']})
+    return 'states:' + '+'.join(st) + ' ' + ' '.join(f"{nm}:{kinds[nm]['container']}/{fam(kinds[nm]['num'])}" for nm in ('xmin', 'xmax', 'move'))
 
 
 K_CYCLE = ('minimize_mma', 'iterates approach the known optimum and the constraints end up satisfied',
@@ -379,6 +512,31 @@ def sval_coq(is_scalar, vals):
 
 def bspec_coq(spec, spell):
     return f'(BScal {qf(spec)})' if spell == 'scalar' else f'(BList {qv(spec)})'
+
+
+DT_TAG = {'int32': 'I32', 'int64': 'I64', 'float32': 'F32', 'float64': 'F64'}
+
+
+def dt_tag(dtype):
+    """numpy dtype -> the model's tag (None: a dtype outside the model, reported by the oracle)"""
+    return DT_TAG.get(np.dtype(dtype).name)
+
+
+def tarr_coq(dtype, vals):
+    return f'({dt_tag(dtype) or "F64"}, {qv(vals)})'
+
+
+def tstate_coq(tag, is_scalar, vals):
+    return f'(TVal {tag} {sval_coq(is_scalar, vals)})'
+
+
+def tbspec_coq(spec, spell, kind):
+    tag = KIND_TAG[kind['num']]
+    return f'(TBScal {tag} {qf(spec)})' if spell == 'scalar' else f'(TBList {tag} {qv(spec)})'
+
+
+def prob_kinds(prob):
+    return prob.get('kinds') or legacy_kinds(prob['shapes'], prob['spell'])
 
 
 def version_flags(v):
@@ -448,12 +606,22 @@ def vars_checks(rec, prob):
     for nm in ('xmin', 'xmax', 'move'):
         out.append((f'expand_{nm}', f'expand_ok {rec.n}%nat {nsig}%nat {zl(f.cumlens)}%nat {bspec_coq(prob[nm], prob["spell"][nm])} '
                     f'(Some {qv(getattr(f, nm))})'))
+    # the same with the dtype of every operand: initial states of the given kinds -> dtype and values of the design vector, of the
+    # expanded xmin / xmax / move as MMA.response left them, and of the written-back states
+    kinds = prob_kinds(prob)
+    tinit = [tstate_coq(KIND_TAG[kinds['states'][i]], s == 0, x0[cum0[i]:cum0[i + 1]]) for i, s in enumerate(shapes)]
+    if rec.calls:
+        out.append(('typed_vars', f'tvars_ok [{"; ".join(tinit)}] ' + ' '.join(tbspec_coq(prob[nm], prob['spell'][nm], kinds[nm]) for nm in ('xmin', 'xmax', 'move'))
+                    + f' {tarr_coq(rec.calls[0].xval_dt, rec.calls[0].xval)} {zl(f.cumlens)}%nat '
+                    + ' '.join(f'(Some {tarr_coq(getattr(f, nm + "_dt"), getattr(f, nm))})' for nm in ('xmin', 'xmax', 'move'))))
     # states seen by the callback of iteration k are the write-back of the design of iteration k
     ks = list(range(min(len(rec.callbacks), 6))) + ([len(rec.callbacks) - 1] if len(rec.callbacks) > 6 else [])
     for k in ks:
         xk = x0 if k == 0 else rec.calls[k - 1].xnew
-        obs = '; '.join(sval_coq(sc, v) for sc, v, _ in rec.callbacks[k])
+        obs = '; '.join(sval_coq(sc, v) for sc, v, _, _ in rec.callbacks[k])
         out.append((f'writeback{k}', f'writeback_ok {qv(xk)} {zl(f.cumlens)}%nat [{obs}]'))
+        tobs = '; '.join(tstate_coq(dt_tag(dt) or 'F64', sc, v) for sc, v, _, dt in rec.callbacks[k])
+        out.append((f'typed_writeback{k}', f'twriteback_ok (F64, {qv(xk)}) {zl(f.cumlens)}%nat [{tobs}]'))
         if k < len(rec.calls):   # the design handed to mmasub is the concatenation of those states (read back after response())
             out.append((f'readback{k}', f'concat_ok [{obs}] {qv(rec.calls[k].xval)} {zl(f.cumlens)}%nat'))
     return 'all [' + '; '.join(e for _, e in out) + ']', [a for a, _ in out], '', out
@@ -484,24 +652,39 @@ def oracle_run(ctx, rec, prob, label, check_convergence=True):
 
     def bad(site, pred, k, expected=None, got=None, icls=None, **extra):
         ctx.violation('impl-violates', site, pred, icls or cls, dict(pj, iteration=k, **extra), expected=expected, got=got)
-    if rec.error is not None:
-        bad('minimize_mma', 'runs without raising on a valid convex problem', None, got=repr(rec.error)[:500])
-        return
+    kinds = prob_kinds(prob)
+    kcls = kinds_class(kinds)
+    known_seq = isinstance(rec.error, TypeError) and both_sequences_per_variable(prob['spell'], kinds, rec.n, len(prob['shapes']))
+    if rec.error is not None and not known_seq:
+        bad('minimize_mma', 'runs without raising on a valid convex problem', None, got=repr(rec.error)[:500], kinds=kcls)
+    if known_seq:
+        ctx.count('per_variable_bounds_as_python_sequences')
+        ctx.violation('impl-violates', *K_SEQ, dict(pj), expected='runs', got=repr(rec.error)[:300])
     if f is None:
         return
     lens = [1 if sh == 0 else max(sh, 0) for sh in prob['shapes']]
+    given = {}
     for nm in ('xmin', 'xmax', 'move'):
         spec, spell = prob[nm], prob['spell'][nm]
         exp = np.full(rec.n, float(spec)) if spell == 'scalar' else np.array(spec, dtype=float) if spell == 'variable' else \
             np.concatenate([np.full(ln, float(v)) for ln, v in zip(lens, spec)] + [np.zeros(0)])
+        given[nm] = exp
         if not np.array_equal(exp, getattr(f, nm)):
             bad('MMA.response', f'{nm} given as {spell} lands on the right variables', None, expected=exp.tolist(),
-                got=getattr(f, nm).tolist(), icls='bounds:' + spell)
+                got=getattr(f, nm).tolist(), icls='bounds:' + spell, kinds=kcls)
+        # a scalar / per-signal specification is expanded by MMA.response: into floats, whatever the kinds of the states
+        dt = getattr(f, nm + '_dt')
+        if dt_tag(dt) is None or ((spell == 'signal' or (spell == 'scalar' and nm != 'move')) and dt != np.float64):
+            bad('MMA.response', f'expanded {nm} is a float64 vector', None, expected='float64', got=str(dt), icls='bounds:' + spell, kinds=kcls)
     if f.cumlens != [int(v) for v in rec.cum]:
         bad('MMA.response', 'cumulative lengths of the variable signals', None, expected=[int(v) for v in rec.cum], got=f.cumlens)
-    dx = f.xmax - f.xmin
+    if rec.error is not None:
+        return
+    # the statements of the property are about the bounds and the move limit AS GIVEN
+    gxmin, gxmax, gmove = given['xmin'], given['xmax'], given['move']
+    dx = gxmax - gxmin
     par = f.par
-    sc = max(1.0, np.abs(f.xmin).max(), np.abs(f.xmax).max())
+    sc = max(1.0, np.abs(gxmin).max(), np.abs(gxmax).max())
     e = 1e-12 * sc
     if len(rec.callbacks) < len(rec.calls):
         bad('MMA.response', 'fn_callback is called before every response', None, expected=len(rec.calls), got=len(rec.callbacks))
@@ -510,8 +693,12 @@ def oracle_run(ctx, rec, prob, label, check_convergence=True):
         s = c.sub
         # ---- variables: what the callback saw is the design, signal by signal
         xk = np.array(prob['x0'], dtype=float) if k == 0 else rec.calls[k - 1].xnew
-        for i, (is_scalar, vals, tname) in enumerate(rec.callbacks[k]):
+        if c.xval_dt != np.float64:
+            bad('MMA.response', 'design vector handed to mmasub is float64', k, expected='float64', got=str(c.xval_dt), kinds=kcls)
+        for i, (is_scalar, vals, tname, sdt) in enumerate(rec.callbacks[k]):
             a, b = int(rec.cum[i]), int(rec.cum[i + 1])
+            if sdt != np.float64:
+                bad('MMA.response', 'written-back state is a float64 scalar / array', k, expected='float64', got=f'{tname} of {sdt}', signal=i, kinds=kcls)
             if not np.array_equal(vals, xk[a:b]):
                 bad('MMA.response', 'variable signal holds its own range of the design vector', k, expected=xk[a:b].tolist(), got=vals.tolist(), signal=i)
             if is_scalar != (b - a == 1):
@@ -527,11 +714,11 @@ def oracle_run(ctx, rec, prob, label, check_convergence=True):
                 bad('MMA.response', 'dg handed to mmasub is the response gradient (sensitivities reset between responses)', k,
                     expected=fn.grad(c.xval).tolist(), got=c.dg[i].tolist(), response=i)
         # ---- box, move limit, asymptotes
-        if np.any(c.xval < f.xmin - e) or np.any(c.xval > f.xmax + e):
+        if np.any(c.xval < gxmin - e) or np.any(c.xval > gxmax + e):
             bad('minimize_mma', 'design stays within [xmin, xmax]', k, got=c.xval.tolist())
-        if np.any(s.alfa < f.xmin) or np.any(s.alfa > c.xval + e) or np.any(s.beta < c.xval - e) or np.any(s.beta > f.xmax):
+        if np.any(s.alfa < gxmin) or np.any(s.alfa > c.xval + e) or np.any(s.beta < c.xval - e) or np.any(s.beta > gxmax):
             bad('MMA.mmasub', 'xmin <= alfa <= xval <= beta <= xmax', k, got=dict(alfa=s.alfa.tolist(), beta=s.beta.tolist(), xval=c.xval.tolist()))
-        if np.any(s.alfa < c.xval - f.move * dx - e) or np.any(s.beta > c.xval + f.move * dx + e):
+        if np.any(s.alfa < c.xval - gmove * dx - e) or np.any(s.beta > c.xval + gmove * dx + e):
             bad('MMA.mmasub', 'alfa/beta within the move limit', k, got=dict(alfa=s.alfa.tolist(), beta=s.beta.tolist(), xval=c.xval.tolist()))
         if not (np.all(c.low < s.alfa) and np.all(s.beta < c.upp) and np.all(s.alfa < s.beta)):
             bad('MMA.mmasub', 'low < alfa < beta < upp', k, got=dict(low=c.low.tolist(), alfa=s.alfa.tolist(), beta=s.beta.tolist(), upp=c.upp.tolist()))
@@ -555,7 +742,7 @@ def oracle_run(ctx, rec, prob, label, check_convergence=True):
         x = s.ret[0]
         if not (np.all(x > s.alfa) and np.all(x < s.beta)):
             bad('subsolv', 'returned x strictly inside (alfa, beta)', k, got=dict(x=x.tolist(), alfa=s.alfa.tolist(), beta=s.beta.tolist()))
-        if np.any(x < f.xmin) or np.any(x > f.xmax) or np.any(np.abs(x - c.xval) > f.move * dx + e):
+        if np.any(x < gxmin) or np.any(x > gxmax) or np.any(np.abs(x - c.xval) > gmove * dx + e):
             bad('minimize_mma', 'new design within [xmin, xmax] and within move*(xmax-xmin) of the old one', k,
                 got=dict(x=x.tolist(), xval=c.xval.tolist()))
         if not np.array_equal(c.xnew, x):
@@ -597,6 +784,8 @@ def oracle_run(ctx, rec, prob, label, check_convergence=True):
 
 
 CONV_ABS, CONV_REL, CONV_G = 0.1, 0.3, 1e-4
+# kinds of the operands of the generated problems (the corpus holds one deliberately chosen problem per family, run on every seed)
+PROFILES = ('legacy', 'legacy', 'mixed', 'mixed', 'mixed', 'allint', 'allf32', 'alli32')
 
 
 def sub_json(s):
@@ -626,7 +815,24 @@ def translate(ctx):
     if not ok:
         ctx.violation('proof', 'pymoto/common/mma.py', 'generated formulas equal Model/MMAform.v', 'translator/bridge',
                       dict(error=err[-3000:]), theorem='BridgeC10.MMABridge')
-    return ok
+    # ---- pymoto/utils.py: _concatenate_to_array / _split_from_array (typed model of Model/MMAvars.v)
+    import gen_utils
+    ok2, err2 = True, ''
+    try:
+        pth = ctx.write_gen('UtilsGen.v', gen_utils.generate(vlib.REPO))
+        ok2, _, err2 = vlib.compile_file(ctx, pth, 'gen:UtilsGen.v (translated from pymoto/utils.py) compiles', 'translator')
+    except py2coq.Unsupported as e:
+        ctx.obligation('gen:UtilsGen.v translation of pymoto/utils.py', 'translator', False, str(e))
+        ok2, err2 = False, str(e)
+    if ok2:
+        bp = os.path.join(ctx.bridge_dir, 'UtilsBridge.v')
+        ok2, _, err2 = vlib.compile_file(ctx, bp, 'bridge:UtilsBridge (generated _concatenate_to_array / _split_from_array = Model/MMAvars.v typed model; '
+                                         'the generated concatenation is float64 for entries of every dtype)', 'bridge')
+    if not ok2:
+        ctx.violation('proof', 'pymoto/utils.py', 'generated _concatenate_to_array / _split_from_array equal the typed model of Model/MMAvars.v '
+                      '(result float64 whatever the dtypes of the entries)', 'translator/bridge', dict(error=err2[-3000:]),
+                      theorem='BridgeC10.UtilsBridge.gen_concat_dtype_float64')
+    return ok and ok2
 
 
 def load_corpus():
@@ -699,37 +905,45 @@ def run(ctx):
     todo = []
     for d in load_corpus():
         if d.get('kind') == 'problem':
-            todo.append((f"corpus:{d['_file']}", d['problem'], d.get('maxit'), d.get('convergence', False)))
+            todo.append((f"corpus:{d['_file']}", d['problem'], d.get('maxit'), d.get('convergence', False), d.get('iterations')))
     n_act, n_inact = (14, 3) if quick else (100, 12)
     it_act, it_inact = (40, 10) if quick else (60, 20)
     a = b = 0
     while a < n_act or b < n_inact:
-        prob = gen_problem(rng, tier_big=not quick)
+        prob = gen_problem(rng, tier_big=not quick, profile=rng.choice(PROFILES))
         if all_inactive(prob):
             if b < n_inact:
-                todo.append((f'gen:inactive{b}', prob, it_inact, False))
+                todo.append((f'gen:inactive{b}', prob, it_inact, False, None))
                 b += 1
         elif a < n_act:
-            todo.append((f'gen:active{a}', prob, it_act, True))
+            todo.append((f'gen:active{a}', prob, it_act, True, None))
             a += 1
     sub_samples = []
-    for label, prob, maxit, conv in todo:
+    for label, prob, maxit, conv, only_its in todo:
         rec = run_problem(pym, prob, maxit=maxit)
         n = rec.n
         ctx.count(f'n={n if n < 8 else "8+"}')
         ctx.count(f'm={len(prob["f"]) - 1}')
         ctx.count(f'signals={len(prob["shapes"])}')
         ctx.count('version=' + vclass(prob))
+        pk = prob_kinds(prob)
         for k2 in ('xmin', 'xmax', 'move'):
             ctx.count(f'{k2}:{prob["spell"][k2]}')
+            ctx.count(f'{k2}_kind={pk[k2]["container"]}/{pk[k2]["num"]}')
+        for k2 in pk['states']:
+            ctx.count('state_kind=' + k2)
+        ctx.count('state_kinds:' + kinds_class(pk).split(' ')[0][7:])
         ctx.count('custom_asymptote_parameters' if 'asyinit' in prob['kw'] else 'default_asymptote_parameters')
         ctx.count('iterations', len(rec.calls))
         ctx.count('verbosity=%d' % prob.get('verbosity', 0))
+        ctx.extra['max_run_seconds'] = round(max(ctx.extra.get('max_run_seconds', 0.0), rec.seconds), 2)
         oracle_run(ctx, rec, prob, label, check_convergence=conv)
         if rec.error is not None or rec.first is None:
             continue
         add((label, 'vars'), vars_checks(rec, prob), n >= 2)
         ks = sorted(set(([0, 1, 2] if quick else [0, 1, 2, 3]) + [rng.randrange(3, max(4, len(rec.calls))) for _ in range(1 if quick else 3)] + [len(rec.calls) - 1]))
+        if only_its is not None and quick:      # corpus entries about the variable handling: few iterations are compared in the quick tier
+            ks = sorted(set(only_its))
         for k in ks:
             if 0 <= k < len(rec.calls):
                 add((label, 'iter', k), iteration_checks(rec, prob, k, full=(not quick) or k in (0, 2)), n >= 2 or k >= 2)
@@ -848,33 +1062,48 @@ def direct_cases(ctx, pym, mma, putils, add, sub_samples):
         ctx.count('direct_subsolv_midpoint_start')
         oracle_subsolv(ctx, s, label, sj)
         add((label, 'subsolv-midpoint'), subsolv_checks(s), True)
-    # ---- pymoto.utils._concatenate_to_array / _split_from_array
+    # ---- pymoto.utils._concatenate_to_array / _split_from_array: entries of every kind (Python int / float, numpy scalars and
+    #      1-D arrays of int32 / int64 / float32 / float64, empty and one-element arrays), alone and mixed
     nutil = 40 if ctx.quick() else 300
-    for t in range(nutil):
-        nsig = rng.randint(0, 4)
-        states, coq_states = [], []
-        for _ in range(nsig):
-            kind = rng.choice(('scalar', 'array', 'array', 'npscalar', 'empty', 'one'))
-            if kind == 'scalar':
-                v = rng.randint(-40, 40) / 8
-                states.append(v)
-                coq_states.append(sval_coq(True, [v]))
-            elif kind == 'npscalar':
-                v = np.float64(rng.randint(-40, 40) / 8)
-                states.append(v)
-                coq_states.append(sval_coq(True, [v]))
-            else:
-                ln = 0 if kind == 'empty' else 1 if kind == 'one' else rng.randint(2, 5)
-                v = np.array([rng.randint(-40, 40) / 8 for _ in range(ln)])
-                states.append(v)
-                coq_states.append(sval_coq(False, v))
+    fams = (SCALAR_KINDS + ARRAY_KINDS, INT_KINDS + ('i64', 'i32'), ('f32',), ('i32',), ('pyint',), ('pyfloat', 'f64'))
+    stress = [[('pyint', None, [3])], [('i64', 3, [2, 2, 2]), ('pyint', None, [3])], [('i32', 2, [1, -4]), ('i32', None, [7])],
+              [('f32', 2, [0.5, 1.25]), ('f32', None, [2.0])], [('i64', 0, []), ('i64', 1, [5])], [('i32', 2, [1, 2]), ('f32', 1, [0.5])],
+              [('i64', 0, [])], []]
+    for t in range(nutil + len(stress)):
+        states, coq_states, tstates, names = [], [], [], []
+        if t < len(stress):
+            spec = stress[t]
+        else:
+            fam = fams[rng.randrange(len(fams))] if rng.random() < 0.7 else fams[0]
+            spec = []
+            for _ in range(rng.randint(0, 4)):
+                kind = rng.choice(fam)
+                shape = rng.choice(('scalar', 'array', 'array', 'empty', 'one'))
+                if shape == 'scalar' or kind in ('pyfloat', 'pyint'):
+                    ln = None
+                else:
+                    ln = 0 if shape == 'empty' else 1 if shape == 'one' else rng.randint(2, 5)
+                vals = [float(rng.randint(-40, 40)) if kind in INT_KINDS else rng.randint(-40, 40) / 8 for _ in range(1 if ln is None else ln)]
+                spec.append((kind, ln, vals))
+        for kind, ln, vals in spec:
+            v = state_value(vals, ln is None, kind)
+            states.append(v)
+            names.append(kind + ('' if ln is None else f'[{ln}]'))
+            coq_states.append(sval_coq(ln is None, vals))
+            tstates.append(tstate_coq(KIND_TAG[kind], ln is None, vals))
+        nsig = len(states)
         vals, cum = putils._concatenate_to_array(states)
         ctx.count('utils_concat_split')
+        for nm in names:
+            ctx.count('utils_entry_kind=' + nm.split('[')[0])
         ctx.search_evaluations += 1
         flat = [float(x) for st in states for x in np.atleast_1d(st)]
-        if list(vals) != flat or [int(c) for c in cum] != [0] + list(np.cumsum([np.size(st) for st in states]).astype(int)):
+        if [float(x) for x in vals] != flat or [int(c) for c in cum] != [0] + list(np.cumsum([np.size(st) for st in states]).astype(int)):
             ctx.violation('impl-violates', '_concatenate_to_array', 'values are the flattened states in order, indices their running lengths',
-                          'utils', dict(states=[np.atleast_1d(st).tolist() for st in states]), got=dict(vals=list(vals), cum=list(map(int, cum))))
+                          'utils', dict(states=[np.atleast_1d(st).tolist() for st in states], kinds=names), got=dict(vals=[float(x) for x in vals], cum=list(map(int, cum))))
+        if np.asarray(vals).dtype != np.float64:
+            ctx.violation('impl-violates', '_concatenate_to_array', 'the concatenated array is float64 whatever the kinds of the entries',
+                          'utils', dict(states=[np.atleast_1d(st).tolist() for st in states], kinds=names), expected='float64', got=str(np.asarray(vals).dtype))
         bad_cum = rng.random() < 0.25 and len(cum) > 0
         cum2 = np.array(cum).copy()
         if bad_cum:
@@ -890,8 +1119,20 @@ def direct_cases(ctx, pym, mma, putils, add, sub_samples):
         except AssertionError:
             obs = 'None'
         e = (f'all [concat_ok [{"; ".join(coq_states)}] {qv(vals)} {zl([int(c) for c in cum])}%nat; '
-             f'split_ok {qv(vals)} {zl([int(c) for c in cum2])}%nat {obs}]')
-        add(('utils', t), (e, ['concat', 'split'], '', [('concat', e), ('split', e)]), nsig >= 2)
+             f'split_ok {qv(vals)} {zl([int(c) for c in cum2])}%nat {obs}; '
+             f'tconcat_ok [{"; ".join(tstates)}] (Some ({tarr_coq(np.asarray(vals).dtype, vals)}, {zl([int(c) for c in cum])}%nat))]')
+        add(('utils', t), (e, ['concat', 'split', 'typed_concat'], '', [('concat', e), ('split', e), ('typed_concat', e)]), nsig >= 2)
+    # the promotion table of the model against numpy
+    import itertools
+    npt = dict(I32=np.int32, I64=np.int64, F32=np.float32, F64=np.float64)
+    e = 'all [' + '; '.join(f'dtype_eqb (promote {a} {b}) {dt_tag(np.promote_types(npt[a], npt[b])) or "I32"} && '
+                            f'dtype_eqb (promote {a} {b}) {dt_tag(np.concatenate((np.zeros(1, npt[a]), np.zeros(1, npt[b]))).dtype) or "I32"}'
+                            for a, b in itertools.product(npt, repeat=2)) + ']'
+    add(('utils', 'promote'), (e, ['promote'], '', [('promote', e)]), True)
+    ctx.oracle_validation['Model/MMAvars.promote == numpy.promote_types == dtype of np.concatenate (16 pairs)'] = 16
+    ctx.oracle_validation['np.asarray of a Python int / float is int64 / float64'] = int(np.asarray(3).dtype == np.int64 and np.asarray(3.0).dtype == np.float64)
+    if not (np.asarray(3).dtype == np.int64 and np.asarray(3.0).dtype == np.float64):
+        ctx.violation('correspondence', 'numpy', 'np.asarray of a Python int / float is int64 / float64', 'platform', dict())
 
 
 ERR = {TypeError: 'TypeError', ValueError: 'ValueError', IndexError: 'IndexError', AssertionError: 'AssertionError',
@@ -927,6 +1168,7 @@ def malformed(ctx, pym, add):
             base = prob[nm] if prob['spell'][nm] == 'scalar' else prob[nm][0]
             prob[nm] = [float(base)] * ln
             prob['spell'][nm] = 'signal' if rng.random() < 0.5 else 'variable'
+            prob['kinds'][nm] = legacy_kinds(shapes, prob['spell'])[nm]
             expected = 'RuntimeError'
             coq = lambda got: f'expand_ok {n}%nat {nsig}%nat {zl(cum)}%nat (BList {qv(prob[nm])}) ' + ('None' if got == 'RuntimeError' else '(Some [])')
         elif kind == 'version':
